@@ -145,7 +145,7 @@ partial def pArray : P ArrayData := fun cs => do
   let bufs ← parseBufs bs
   let nulls ← (if ns = "-" then some none else
     match ns.splitOn ":" with
-    | [h] => (hexE h).map (fun b => some { bytes := b, off := off, len := len, nullCount := countNulls b off len : Nulls })
+    | [h] => (hexE h).map (fun b => some { bytes := b, off := off, len := len, nullCount := (if off + len ≤ 8 * b.length then countNulls b off len else 0) : Nulls })
     | [h, c] => do
       let b ← hexE h
       let c ← c.toNat?
